@@ -4,7 +4,7 @@ Both tools are built out of tree from the current /repo sources with ASan+UBSan:
   * the stand-alone executables `unber` and `enber` (used for the cross-check sample, for confirming every
     reported class and for the deep-nesting probe), and
   * drv/unberdrv.c, which links the *same* main() functions (-Dmain=unber_main / -Dmain=enber_main) and runs
-    `unber -p -` / `enber -` for many inputs, each in a forked child with memfds as fd 0/1/2.
+    `unber -p -` / `enber -` / `unber -` for many inputs, each in a forked child with memfds as fd 0/1/2.
 
 Oracle for a well-formed x (reference: ref.ber.parse_tlv):
   unber exit 0; its output, parsed line by line, is exactly the pre-order walk of the reference TLV forest
@@ -12,7 +12,8 @@ Oracle for a well-formed x (reference: ref.ber.parse_tlv):
   "Indefinite", primitive contents as &#xNN;, closing </C O=end L=total>, </I O=offset-of-EOC T=[UNIVERSAL 0]
   TL=2 L=total>, indentation 4*depth); enber exit 0 and enber(unber -p x) == x.
 Oracle for arbitrary bytes: the child returns within the watchdog, is not killed by a signal, prints no
-sanitizer report, and either exits 0 or exits non-zero with a diagnostic on stderr.
+sanitizer report, and either exits 0 or exits non-zero with a diagnostic on stderr.  This part is applied to
+`unber -p` and to `unber` in its default pretty-printing mode (INTEGER/OID/string formatting code), on every input.
 """
 import os, re, shutil, subprocess, collections, glob, json, threading, time
 import multiprocessing as mp
@@ -356,6 +357,19 @@ def crafted(tier):
     for n in (1000, 1364, 1365, 1366, 2729, 2730, 2731, 5000, 70000):
         add(tlv(0, 4, False, fill(n)))
         add(tlv(0, 16, True, tlv(2, 0, False, fill(n)) + b'\x05\x00', 'indef'))
+    # F: contents that steer the default mode's pretty-printers (BOOLEAN, INTEGER, ENUMERATED, OID, RELATIVE-OID, strings, times)
+    pats = (lambda n: b'\0' * n, lambda n: b'\xff' * n, lambda n: b'\x80' * n, lambda n: b'\x7f' + b'\xff' * (n - 1) if n else b'',
+            lambda n: b'\x80' + b'\0' * (n - 1) if n else b'', lambda n: b'\x2b' + b'\xff' * (n - 2) + b'\x7f' if n >= 2 else b'\x2b'[:n],
+            lambda n: (b'\x88\x37' * n)[:n], lambda n: fill(n))
+    for num in (1, 2, 10, 6, 13, 9):
+        for n in range(0, 20):
+            for pf in pats:
+                add(tlv(0, num, False, pf(n)))
+    for num in (3, 4, 7, 12, 18, 19, 20, 21, 22, 23, 24, 25, 26, 27, 28, 30):
+        for n in (0, 1, 7, 8, 9, 40):
+            add(tlv(0, num, False, fill(n)))
+            add(tlv(0, num, False, (b'plain text, ' * 4)[:n]))
+            add(tlv(2, num, False, (b'plain text, ' * 4)[:n]))
     many = b''.join(tlv(2, i % 31, False, fill(i % 5)) for i in range(300))
     add(tlv(0, 16, True, many))
     add(tlv(0, 16, True, many, 'indef'))
@@ -366,7 +380,7 @@ def corpus_plan(tier):
     """[(tier of typegen, families, k, cap per value)]"""
     if tier == 'quick':
         return [('quick', ['S0', 'S1'], 1, 400)]
-    return [('quick', ['S0', 'S1'], 2, 600), ('quick', ['S2', 'S4', 'S6'], 1, 200), ('thorough', ['S3'], 1, 200)]
+    return [('quick', ['S0', 'S1'], 2, 600), ('quick', ['S2', 'S4', 'S6'], 1, 200), ('thorough', ['S3'], 1, 200), ('thorough', ['S1'], 1, 40)]
 
 
 _GEN = None
@@ -428,7 +442,8 @@ def seeds(corpus):
         '300ba1800201010000' '04026162', '3080a10302010104026162' '0000', '1f1f0100', '5f810001aa', 'dfff7f00',
         'bf818000020500', '9f818080800001ff', '048103616263', '04820003616263', '2480040161040162' '0000',
         '030204f0', '06032a0304', '0101ff', '090380fb01', '3100', '30800000', '0201010500', '308030803080' '000000000000',
-        '6003800100', '0000', 'e080c000' '0000', '3003020101' '308005000000', '0c0568263c3e6c', '13025553')]
+        '6003800100', '0000', 'e080c000' '0000', '3003020101' '308005000000', '0c0568263c3e6c', '13025553',
+        '060a2bffffffffffffffff7f', '0d03813403', '0209008000000000000000', '02088000000000000000')]
     # plus three short corpus encodings that nest and use a non-canonical form
     extra = []
     for x in corpus:
@@ -495,17 +510,27 @@ def _bad_exit(st, err):
 
 def judge(x, origin, nodes, kv):
     """all violations of one evaluated input: list of (kind, detail)"""
+    out = []
+    # default (pretty-printing) mode: safety, and success on well-formed input
+    ds, de = kv.get('ds'), _unhex(kv.get('de'))
+    bad = _bad_exit(ds, de)
+    if bad:
+        out.append(('unber_default_mode_' + bad[0], bad[1] + ': ' + de.decode('latin-1')[-1200:]))
+    elif ds != '0' and not de.strip():
+        out.append(('unber_default_mode_silent_failure', 'exit status %s without any diagnostic on stderr' % ds))
+    elif ds != '0' and nodes is not None:
+        out.append(('unber_default_mode_rejects_wellformed', 'exit status %s: %s' % (ds, de.decode('latin-1')[:300])))
+    # -p mode
     us, uo, ue = kv.get('us'), _unhex(kv.get('uo')), _unhex(kv.get('ue'))
     bad = _bad_exit(us, ue)
     if bad:
-        return [('unber_' + bad[0], bad[1] + ': ' + ue.decode('latin-1')[-1200:])]
+        return out + [('unber_' + bad[0], bad[1] + ': ' + ue.decode('latin-1')[-1200:])]
     if us != '0' and not ue.strip():
-        return [('unber_silent_failure', 'exit status %s without any diagnostic on stderr' % us)]
+        return out + [('unber_silent_failure', 'exit status %s without any diagnostic on stderr' % us)]
     if nodes is None:
-        return []
-    out = []
+        return out
     if us != '0':
-        return [('unber_rejects_wellformed', 'exit status %s: %s' % (us, ue.decode('latin-1')[:300]))]
+        return out + [('unber_rejects_wellformed', 'exit status %s: %s' % (us, ue.decode('latin-1')[:300]))]
     obs, err = observed_events(uo.decode('latin-1'))
     diff = err or compare_events(expected_events(x, nodes), obs)
     if diff:
@@ -540,7 +565,7 @@ def _eval(rng):
         nodes = wellformed(x)
         if nodes is None and origin in ('corpus', 'crafted'):
             raise RuntimeError('generator self-check: %s input is not well-formed for the reference: %s' % (origin, x.hex()[:200]))
-        lines.append('%s %s' % ('r' if nodes else 'u', x.hex() or '-'))
+        lines.append('%s %s' % ('ued' if nodes else 'ud', x.hex() or '-'))
         metas.append(nodes)
     res = common.run_driver(_DRV, lines, watchdog=10)
     viol, samples, raw = [], [], {}
@@ -573,7 +598,8 @@ def _eval(rng):
                                   unber_status=kv.get('us'), unber_output=_unhex(kv.get('uo')).decode('latin-1')[:6000],
                                   unber_stderr=_unhex(kv.get('ue')).decode('latin-1')[-3000:],
                                   enber_status=kv.get('es'), enber_output=_unhex(kv.get('eo')).hex()[:12000],
-                                  enber_stderr=_unhex(kv.get('ee')).decode('latin-1')[-3000:], detail=detail,
+                                  enber_stderr=_unhex(kv.get('ee')).decode('latin-1')[-3000:],
+                                  unber_default_mode_status=kv.get('ds'), unber_default_mode_stderr=_unhex(kv.get('de')).decode('latin-1')[-3000:], detail=detail,
                                   how='xxd -r -p <<< $input > x.ber; unber -p x.ber | enber - | cmp - x.ber')))
     return st, viol, nontriv, raw
 
